@@ -91,6 +91,20 @@ def ring_plans(run):
         for c in pl[1:]:
             c["obs"] = [True] * 40    # every handle here comes from NewRing, i.e. is initialised
         gen.append(pl)
+    # big rings (block allocation boundaries at 64, 128 ...): only a handful of handles is observed after each call
+    for n in ((65, 130) if run.quick() else (65, 129, 200, 300)):
+        watch = sorted({1, 2, 63, 64, 65, 66, 67, n - 1, n, 127, 128, 129, 130} & set(range(1, n + 1)))
+        obs = [i + 1 in watch for i in range(n)]
+        pl = [dict(op="Reset"), dict(op="NewRing", r=0, q=0, k=n, obs=obs)]
+        for h in watch:
+            for k in (-1, -2, 1, 2, -64, 64, -65, n):
+                pl.append(dict(op="Move", r=h, q=0, k=k, obs=obs))
+            pl.append(dict(op="Prev", r=h, q=0, k=0, obs=obs))
+            pl.append(dict(op="Next", r=h, q=0, k=0, obs=obs))
+        for h in watch[:6]:
+            pl.append(dict(op="Unlink", r=h, q=0, k=run.rng.choice([1, 2, 63, 64]), obs=obs))
+            pl.append(dict(op="Link", r=h, q=run.rng.choice(watch), k=0, obs=obs))
+        gen.append(pl)
     return plans, gen, st
 
 
